@@ -1,15 +1,17 @@
 import Drx.Bitd
 import Drx.BitdSpec
 import Drx.BitdSteps
+import Drx.BitdFast
 import Drx.Drv.Util
 namespace Drx.Drv.Bitd
 open Drx Drx.Drv Drx.Bitd
 
-/-- a call as one token: `depth,W,H,padW,padH,palette,clut,data` (palette `-` = empty string; hex, `-` = empty) -/
-def parseCall (s : String) : Option Call :=
+/-- a call as one token: `depth,W,H,padW,padH,palette,clut,data` (offsets may be negative; palette `-` = empty string;
+    hex, `-` = empty) -/
+def parseCall (s : String) : Option Request :=
   match s.splitOn "," with
   | [d, w, h, pw, ph, pal, clut, data] => do
-    let d ← parseNat d; let w ← parseNat w; let h ← parseNat h; let pw ← parseNat pw; let ph ← parseInt ph
+    let d ← parseNat d; let w ← parseNat w; let h ← parseNat h; let pw ← parseInt pw; let ph ← parseInt ph
     let clut ← bytesOfHex clut; let data ← bytesOfHex data
     some { depth := d, width := w, height := h, padW := pw, padH := ph, palette := if pal = "-" then "" else pal, clut := clut, fdata := data }
   | _ => none
@@ -18,10 +20,10 @@ def keys : List Nat := Gen.BitdTables.decoders.map (·.1)
 
 def stateJ (s : DecState) : J := J.obj (keys.map fun k => (toString k, J.hex (s k)))
 
-def runSeq (reset : Bool) : DecState → List Call → List J → DecState × List J
+def runSeq (reset : Bool) : DecState → List Request → List J → DecState × List J
   | s, [], acc => (s, acc.reverse)
   | s, c :: cs, acc =>
-    let (s', r) := decodeStep reset s c
+    let (s', r) := decodeStepI reset s c
     runSeq reset s' cs (J.ofR J.hex r :: acc)
 
 /-- spec-level command: the Lean encoder applied to the spec object, the model, the Lean BMP reader -/
@@ -31,30 +33,40 @@ def c06 (depth W H ox oy : Nat) (pad : Nat) (pix : Bytes) (enc : String) (expect
   let data := Spec.serialise img (UInt8.ofNat pad) (UInt8.ofNat pad) e
   let valid := Spec.validEnc img (UInt8.ofNat pad) (UInt8.ofNat pad) e
   let r := bitd2bmp (Spec.callOf img data)
+  let c := Spec.callOf img data
+  let fast := Fast.bitd2bmpFast { depth := c.depth, width := c.width, height := c.height, padW := (c.padW : Int), padH := c.padH,
+                                  palette := c.palette, clut := c.clut, fdata := c.fdata }
+  let fastOk := match r, fast with
+    | .ok a, .ok b => a == b
+    | .error _, .error _ => true
+    | _, _ => false
   let readOk := match r with
     | .ok bmp => Spec.readBmp bmp == some (Spec.canvas img)
     | .error _ => false
   some (J.obj [("enc_ok", J.bool (data == expectHex)), ("valid", J.bool valid), ("read_ok", J.bool readOk),
-               ("supported", J.bool (Spec.supportedB img e)), ("bmp", J.ofR J.hex r)]).render
+               ("supported", J.bool (Spec.supportedB img e)), ("fast_ok", J.bool fastOk), ("bmp", J.ofR J.hex r)]).render
 
 /-- commands of the `bitd` family (see harness/c06.py, harness/c13.py) -/
 def run : List String → Option String
   | ["decode", c] => do
     let c ← parseCall c
-    some (rJ J.hex (bitd2bmp c))
+    some (rJ J.hex (bitd2bmpI c))
+  | ["decodefast", c] => do
+    let c ← parseCall c
+    some (rJ J.hex (Fast.bitd2bmpFast c))
   | "seq" :: reset :: calls => do
     let cs ← calls.mapM parseCall
     let (s, rs) := runSeq (reset = "1") DecState.init cs []
     some (J.obj [("results", J.arr rs), ("state", stateJ s)]).render
   | ["steps", c] => do
     let c ← parseCall c
-    let s := bitd2bmpSteps c
+    let s := bitd2bmpStepsI c
     some (J.obj [("total", J.nat s.total), ("ops", J.nat s.ops), ("run", J.nat s.run), ("runBits", J.nat s.runBits),
                  ("lit", J.nat s.lit), ("litBits", J.nat s.litBits), ("rows", J.nat s.rows), ("cols", J.nat s.cols),
                  ("bits", J.nat s.bits), ("deRows", J.nat s.deRows), ("dePix", J.nat s.dePix)]).render
   | ["alloc", c] => do
     let c ← parseCall c
-    some (toString (allocBytes c))
+    some (toString (allocBytesI c))
   | ["readbmp", h] => do
     let b ← bytesOfHex h
     some (match Spec.readBmp b with
